@@ -56,13 +56,11 @@ impl World {
                 if !rest.is_empty() {
                     return Err("pool document has unconsumed input".into());
                 }
-                if i != 1 {
-                    // keep the id ranges of different documents apart (ids are per document; a pool has < 64 nodes),
-                    // so that a foreign node met inside the main document is not mistaken for a main node
-                    for _ in 0..64 {
-                        let _ = doc.create_comment("pad");
-                    }
-                }
+                // Node ids are per document, and the foreign document is built exactly like the main one, so every
+                // foreign node has the id of a main node (its twin, or the main node created at the same point): an
+                // implementation that tells nodes apart by id alone - without asking whose document they belong to -
+                // shows here.  (A foreign node that wrongly ends up inside the main tree is then reported under its
+                // twin's index; the call that put it there has already been judged by its result.)
                 w.docs.push(i);
                 w.nodes[i] = Some(doc.as_node());
             }
